@@ -36,6 +36,7 @@ import (
 	"github.com/go-json-experiment/json/internal"
 	"github.com/go-json-experiment/json/internal/jsonwire"
 	"github.com/go-json-experiment/json/jsontext"
+	jsonv1 "github.com/go-json-experiment/json/v1"
 )
 
 func init() { register("C05", runC05) }
@@ -236,7 +237,11 @@ func c05SynSub(err error) string {
 	if err == nil {
 		return "nil"
 	}
-	// the remaining unexported sentinels (missing value, max depth, invalid namespace) are told apart by identity of type only
+	// the remaining unexported sentinels (missing value, max depth, invalid namespace, mismatched delimiter) are
+	// package-level values: told apart by IDENTITY (their address), never by text
+	if reflect.TypeOf(err).Kind() == reflect.Pointer {
+		return fmt.Sprintf("%T@%p", err, err)
+	}
 	return fmt.Sprintf("%T", err)
 }
 
@@ -270,6 +275,24 @@ type c05Runner struct {
 	bad      string // first invariant failure
 	badOp    string
 	panicked any
+	errs     []c05ErrSnap // every error returned so far with its structured fields at return time
+}
+
+// c05ErrSnap remembers an error value together with the structured fields it had when it was returned.
+type c05ErrSnap struct {
+	err  error
+	snap string
+	by   string
+}
+
+// c05Recheck reports the first remembered error whose structured fields are no longer what they were.
+func c05Recheck(errs []c05ErrSnap) (string, bool) {
+	for _, s := range errs {
+		if now := c05JErr(s.err, 0); now != s.snap {
+			return fmt.Sprintf("error returned by %s was %s and later reads as %s", s.by, s.snap, now), true
+		}
+	}
+	return "", false
 }
 
 func c05Opts(optSel int) []jsontext.Options {
@@ -279,6 +302,10 @@ func c05Opts(optSel int) []jsontext.Options {
 	}
 	if optSel&2 != 0 {
 		o = append(o, jsontext.AllowInvalidUTF8(true))
+	}
+	if optSel&4 != 0 {
+		// semantic errors become non-fatal (the first one is reported at the end), offsets follow the v1 convention
+		o = append(o, jsonv1.ReportErrorsWithLegacySemantics(true))
 	}
 	return o
 }
@@ -358,6 +385,13 @@ func (r *c05Runner) call(op byte, withPtr bool) c05Rec {
 			rc.res = string(rune(r.dec.PeekKind()))
 		}
 		rc.ecl, rc.eoff, rc.eptr = c05ErrClass(err)
+		// errors must not change retroactively: re-read the structured fields of every earlier error
+		if msg, changed := c05Recheck(r.errs); changed {
+			r.setBad("error-mutated", msg+" (after "+c05OpName(op)+")")
+		}
+		if err != nil && err != io.EOF {
+			r.errs = append(r.errs, c05ErrSnap{err, c05JErr(err, 0), c05OpName(op)})
+		}
 		// StackPointer costs O(depth): on very deep documents the stream runs sample it (the reference always has it)
 		wp := withPtr || (r.ptrEvery && (len(r.recs)%61 == 0 || r.dec.StackDepth() <= 64))
 		unread = r.observe(&rc, wp)
@@ -387,6 +421,9 @@ func (r *c05Runner) call(op byte, withPtr bool) c05Rec {
 
 // finish evaluates the once-per-run invariants.
 func (r *c05Runner) finish() {
+	if msg, changed := c05Recheck(r.errs); changed {
+		r.setBad("error-mutated", msg+" (at the end of the script)")
+	}
 	if r.fd != nil && !bytes.Equal(r.fd.data, r.in) {
 		r.setBad("reader-data-mutated", "the decoder wrote into the memory owned by the reader")
 	}
@@ -410,6 +447,7 @@ func (rc c05Rec) state() string {
 // stops after the first error (including io.EOF); the ops used are returned.
 func c05RunRef(c *Ctx, in []byte, optSel int, script []byte, gen func(i int) byte, maxOps int) (*c05Runner, []byte) {
 	r := c05NewRunner(c, in, c05Plan{kind: "whole", name: "whole", faultAt: -1}, optSel, true)
+	defer r.finish()
 	if gen == nil {
 		for _, op := range script {
 			r.call(op, true)
@@ -1588,19 +1626,46 @@ func c05JErr(err error, base int64) string {
 		return "IO"
 	}
 	if se, ok := err.(*json.SemanticError); ok {
-		inner := "nil"
-		if se.Err != nil {
-			inner = c05JErr(se.Err, base)
-			if strings.HasPrefix(inner, "other:") {
-				inner = fmt.Sprintf("%T", se.Err)
-			}
-		}
-		return fmt.Sprintf("SEM@%d ptr=%q kind=%q type=%v inner=%s", se.ByteOffset-base, se.JSONPointer, se.JSONKind.String(), se.GoType, inner)
+		// the whole structured payload: offset, pointer, kind, Go type, the JSON value bytes, the wrapped sentinel
+		return fmt.Sprintf("SEM@%d ptr=%q kind=%q type=%v val=%s inner=%s", se.ByteOffset-base, se.JSONPointer, se.JSONKind.String(), se.GoType, hx(se.JSONValue), c05Sentinel(se.Err, base))
 	}
 	if se, ok := err.(*jsontext.SyntacticError); ok {
 		return fmt.Sprintf("SYN:%s@%d ptr=%q", c05SynSub(se.Err), se.ByteOffset-base, se.JSONPointer)
 	}
+	// the error types ReportErrorsWithLegacySemantics converts to (fields only; SyntaxError has no other field)
+	if te, ok := err.(*jsonv1.UnmarshalTypeError); ok {
+		return fmt.Sprintf("V1TYPE@%d ptr=%q kind=%q type=%v struct=%q inner=%s", te.Offset-base, te.Field, te.Value, te.Type, te.Struct, c05Sentinel(te.Err, base))
+	}
+	if se, ok := err.(*jsonv1.SyntaxError); ok {
+		return fmt.Sprintf("V1SYN@%d", se.Offset-base)
+	}
 	return fmt.Sprintf("other:%T", err)
+}
+
+// c05Sentinel classifies the error wrapped by a SemanticError through errors.Is against the documented sentinels,
+// falling back to the dynamic type (never the text).
+func c05Sentinel(err error, base int64) string {
+	if err == nil {
+		return "nil"
+	}
+	var cl []string
+	for _, s := range []struct {
+		name string
+		err  error
+	}{{"range", strconv.ErrRange}, {"syntax", strconv.ErrSyntax}, {"unknown-name", json.ErrUnknownName}, {"ueof", io.ErrUnexpectedEOF},
+		{"eof", io.EOF}, {"dup", jsontext.ErrDuplicateName}, {"nonstring-name", jsontext.ErrNonStringName}, {"unsupported", errors.ErrUnsupported},
+		{"io", c05ErrTransient}, {"nonnil-ref", internal.ErrNonNilReference}, {"cycle", internal.ErrCycle}} {
+		if errors.Is(err, s.err) {
+			cl = append(cl, s.name)
+		}
+	}
+	switch e := err.(type) {
+	case *json.SemanticError, *jsontext.SyntacticError:
+		cl = append(cl, "{"+c05JErr(e, base)+"}")
+	default:
+		cl = append(cl, fmt.Sprintf("%T", err))
+	}
+	return strings.Join(cl, "+")
 }
 
 // c05JErrField names the first differing part of two c05JErr classes.
@@ -1621,19 +1686,139 @@ func c05JErrField(wcl, gcl string) string {
 	return "error-pointer"
 }
 
-func (e *c05Env) unmarshalCase(in []byte, r *rand.Rand, optSel int) {
+// c05Typed is a target whose members fail semantically (range, syntax, array length) without ending the decode
+// under ReportErrorsWithLegacySemantics.
+type c05Typed struct {
+	A int8             `json:"a"`
+	B uint8            `json:"b"`
+	C [2]int           `json:"c"`
+	D []int16          `json:"d"`
+	E map[string]int8  `json:"e"`
+	F float32          `json:"f"`
+	S string           `json:"s"`
+	N *c05Typed        `json:"n"`
+	M map[string][]int `json:"m"`
+}
+
+var c05BaseTargets = []func() any{func() any { return new(any) }, func() any { return new(c05T) }, func() any { return new([]any) },
+	func() any { return new(map[string]any) }, func() any { return new(jsontext.Value) }}
+
+var c05TypedTargets = []func() any{func() any { return new([]int8) }, func() any { return new(map[string]int8) }, func() any { return new([3]int) },
+	func() any { return new(c05Typed) }, func() any { return new([]string) }, func() any { return new([]float32) }, func() any { return new(int8) },
+	func() any { return new([]c05Typed) }, func() any { return new([]uint16) }}
+
+// c05TypedDoc builds documents that produce semantic errors mid-stream for the typed targets: integers beyond
+// int8/uint8/int16, strings where numbers are expected and vice versa, arrays of the wrong length, floats beyond
+// float32 - interleaved with valid members, blanks and enough padding to cross buffer refills.
+func (g c05Gen) typedElem() []byte {
+	switch g.r.IntN(14) {
+	case 0:
+		return []byte("300")
+	case 1:
+		return []byte("-129")
+	case 2:
+		return []byte(`"x"`)
+	case 3:
+		return []byte("1e100")
+	case 4:
+		return []byte("65536")
+	case 5:
+		return []byte("1.5")
+	case 6:
+		return []byte("null")
+	case 7:
+		return []byte("[1,2,3]")
+	case 8:
+		return []byte(`{"a":1000,"b":-1}`)
+	case 9:
+		return g.str(3, false)
+	case 10:
+		return []byte("99999999999999999999")
+	default:
+		return []byte(strconv.Itoa(g.r.IntN(120)))
+	}
+}
+
+func (g c05Gen) typedDoc() []byte {
+	pad := func(b []byte) []byte {
+		if g.r.IntN(3) == 0 {
+			b = append(b, bytes.Repeat([]byte(" "), g.r.IntN(40))...)
+		}
+		return append(b, g.ws()...)
+	}
+	var b []byte
+	switch g.r.IntN(5) {
+	case 0, 1: // array of elements
+		b = append(b, '[')
+		for i, n := 0, g.r.IntN(40); i < n; i++ {
+			if i > 0 {
+				b = append(b, ',')
+			}
+			b = pad(append(pad(b), g.typedElem()...))
+		}
+		b = append(b, ']')
+	case 2: // object with arbitrary names
+		b = append(b, '{')
+		for i, n := 0, g.r.IntN(20); i < n; i++ {
+			if i > 0 {
+				b = append(b, ',')
+			}
+			b = pad(append(append(pad(b), fmt.Sprintf(`"k%d":`, i)...), g.typedElem()...))
+		}
+		b = append(b, '}')
+	case 3: // the struct
+		b = append(b, '{')
+		names := []string{"a", "b", "c", "d", "e", "f", "s", "n", "m", "zz"}
+		for i, n := 0, 1+g.r.IntN(12); i < n; i++ {
+			if i > 0 {
+				b = append(b, ',')
+			}
+			name := names[g.r.IntN(len(names))]
+			b = append(pad(b), fmt.Sprintf(`"%s":`, name)...)
+			switch name {
+			case "c", "d":
+				b = append(b, '[')
+				for k, m := 0, g.r.IntN(5); k < m; k++ {
+					if k > 0 {
+						b = append(b, ',')
+					}
+					b = append(b, g.typedElem()...)
+				}
+				b = append(b, ']')
+			case "e":
+				b = append(append(append(b, `{"x":`...), g.typedElem()...), '}')
+			case "n":
+				b = append(append(append(b, `{"a":`...), g.typedElem()...), `,"b":7}`...)
+			default:
+				b = append(b, g.typedElem()...)
+			}
+			b = pad(b)
+		}
+		b = append(b, '}')
+	default: // a stream of top-level scalars and small arrays
+		for i, n := 0, 1+g.r.IntN(8); i < n; i++ {
+			b = append(pad(append(b, g.typedElem()...)), ' ')
+		}
+	}
+	if g.r.IntN(8) == 0 {
+		b = g.mutate(b)
+	}
+	return b
+}
+
+func (e *c05Env) unmarshalCase(in []byte, r *rand.Rand, optSel int, targets []func() any) {
 	c := e.c
 	opts := []json.Options{}
 	for _, o := range c05Opts(optSel) {
 		opts = append(opts, o)
 	}
-	mk := []func() any{func() any { return new(any) }, func() any { return new(c05T) }, func() any { return new([]any) }, func() any { return new(map[string]any) }, func() any { return new(jsontext.Value) }}
 	plans := c05StdPlans()
 	plans = append(plans, c05RandomPlan(r, len(in)), c05RandomPlan(r, len(in)))
 	if len(in) > 1 {
 		plans = append(plans, c05CutPlan(1+r.IntN(len(in)-1)))
 	}
-	for ti, m := range mk {
+	var errs []c05ErrSnap // every error returned in this case; must still read the same at the end
+	for _, m := range targets {
 		want := m()
 		var werr error
 		if p := guard(func() { werr = json.Unmarshal(append([]byte(nil), in...), want, opts...) }); p != nil {
@@ -1642,6 +1827,12 @@ func (e *c05Env) unmarshalCase(in []byte, r *rand.Rand, optSel int) {
 		}
 		wcl := c05JErr(werr, 0)
 		c.Hit("unmarshal:" + strings.SplitN(wcl, "@", 2)[0])
+		if optSel&4 != 0 {
+			c.Hit("unmarshal(legacy-errors):" + strings.SplitN(wcl, "@", 2)[0])
+		}
+		if werr != nil {
+			errs = append(errs, c05ErrSnap{werr, wcl, "Unmarshal"})
+		}
 		for _, p := range plans {
 			fd := c05NewFeed(in, p)
 			got := m()
@@ -1652,6 +1843,9 @@ func (e *c05Env) unmarshalCase(in []byte, r *rand.Rand, optSel int) {
 			}
 			e.cases.Add(1)
 			gcl := c05JErr(gerr, 0)
+			if gerr != nil {
+				errs = append(errs, c05ErrSnap{gerr, gcl, "UnmarshalRead(" + p.String() + ")"})
+			}
 			field := ""
 			switch {
 			case gcl != wcl:
@@ -1659,21 +1853,40 @@ func (e *c05Env) unmarshalCase(in []byte, r *rand.Rand, optSel int) {
 			case !reflect.DeepEqual(want, got):
 				field = "value"
 			}
+			if field == "error" && optSel&4 != 0 && strings.HasPrefix(wcl, "V1SYN@") && strings.HasPrefix(gcl, "V1SYN@") {
+				// only SyntaxError.Offset differs under ReportErrorsWithLegacySemantics: is the error identical without that flag?
+				var o2 []json.Options
+				for _, o := range c05Opts(optSel &^ 4) {
+					o2 = append(o2, o)
+				}
+				w2, g2 := new(any), new(any) // the syntactic layer does not depend on the target
+				var we2, ge2 error
+				guard(func() {
+					we2 = json.Unmarshal(append([]byte(nil), in...), w2, o2...)
+					ge2 = json.UnmarshalRead(c05NewFeed(in, p).rd, g2, o2...)
+				})
+				if a, b := c05JErr(we2, 0), c05JErr(ge2, 0); a == b && strings.HasPrefix(a, "SYN:text:") {
+					field = "legacy-offset-depends-on-buffered-invalid-text"
+				}
+			}
 			if field != "" {
 				c.Violate("stream-mismatch", "UnmarshalRead:"+field, in, map[string]any{"input": trunc(string(in), 200), "reader": p.String(), "target": fmt.Sprintf("%T", want), "options": optSel,
 					"Unmarshal": wcl, "UnmarshalRead": gcl, "Unmarshal_value": trunc(fmt.Sprintf("%+v", reflect.ValueOf(want).Elem()), 200), "UnmarshalRead_value": trunc(fmt.Sprintf("%+v", reflect.ValueOf(got).Elem()), 200)})
 			}
 		}
-		_ = ti
+	}
+	// the decoders of the calls above went back to their pools and were reused by the later calls
+	if msg, changed := c05Recheck(errs); changed {
+		c.Violate("error-mutated", "UnmarshalRead:error-changes-after-return", in, map[string]any{"input": trunc(string(in), 200), "what": msg, "options": optSel})
 	}
 	// jsontext.Value.IsValid on the slice <=> the stream holds exactly one value
 	var valid bool
-	if p := guard(func() { valid = jsontext.Value(append([]byte(nil), in...)).IsValid(c05Opts(optSel)...) }); p != nil {
+	if p := guard(func() { valid = jsontext.Value(append([]byte(nil), in...)).IsValid(c05Opts(optSel & 3)...) }); p != nil {
 		c.Panic("Value.IsValid", in, p, nil)
 		return
 	}
 	for _, p := range plans {
-		got, _ := c05RunStream(c, in, p, optSel, []byte("VT"), false, 0)
+		got, _ := c05RunStream(c, in, p, optSel&3, []byte("VT"), false, 0)
 		ok := got.panicked == nil && len(got.recs) == 2 && got.recs[0].ecl == "nil" && got.recs[1].ecl == "EOF"
 		if ok != valid {
 			c.Violate("stream-mismatch", "Value.IsValid-vs-stream", in, map[string]any{"input": trunc(string(in), 200), "reader": p.String(), "IsValid": valid, "stream_single_value": ok, "options": optSel})
@@ -1681,10 +1894,10 @@ func (e *c05Env) unmarshalCase(in []byte, r *rand.Rand, optSel int) {
 	}
 }
 
-func (e *c05Env) decodeStreamCase(in []byte, r *rand.Rand) {
+func (e *c05Env) decodeStreamCase(in []byte, r *rand.Rand, optSel int, mk func() any) {
 	c := e.c
 	// split with the reference decoder
-	ref, _ := c05RunRef(c, in, 0, nil, func(int) byte { return 'V' }, 1000)
+	ref, _ := c05RunRef(c, in, optSel&3, nil, func(int) byte { return 'V' }, 1000)
 	if ref.panicked != nil {
 		return
 	}
@@ -1699,33 +1912,49 @@ func (e *c05Env) decodeStreamCase(in []byte, r *rand.Rand) {
 		return
 	}
 	c.Hit(fmt.Sprintf("unmarshaldecode:values=%d", min(len(spans), 6)))
+	opts := []json.Options{}
+	for _, o := range c05Opts(optSel) {
+		opts = append(opts, o)
+	}
 	plans := c05StdPlans()
 	plans = append(plans, c05RandomPlan(r, len(in)), c05RandomPlan(r, len(in)))
-	mk := func() any { return new(any) }
-	if r.IntN(2) == 0 {
-		mk = func() any { return new(c05T) }
-	}
 	for _, p := range plans {
 		fd := c05NewFeed(in, p)
 		var dec *jsontext.Decoder
-		if pp := guard(func() { dec = jsontext.NewDecoder(fd.rd) }); pp != nil {
+		if pp := guard(func() { dec = jsontext.NewDecoder(fd.rd, c05Opts(optSel&3)...) }); pp != nil {
 			c.Panic("NewDecoder", in, pp, nil)
 			return
 		}
 		e.cases.Add(1)
+		var errs []c05ErrSnap
+		recheck := func(when string) bool {
+			if msg, changed := c05Recheck(errs); changed {
+				c.Violate("error-mutated", "UnmarshalDecode:error-changes-after-return", in, map[string]any{"input": trunc(string(in), 200), "reader": p.String(),
+					"what": msg + " (" + when + ")", "options": optSel, "target": fmt.Sprintf("%T", mk())})
+				return true
+			}
+			return false
+		}
 		for i, sp := range spans {
 			want, got := mk(), mk()
 			var werr, gerr error
 			var off int64
 			if pp := guard(func() {
-				werr = json.Unmarshal(append([]byte(nil), in[sp.lo:sp.hi]...), want)
-				gerr = json.UnmarshalDecode(dec, got)
+				werr = json.Unmarshal(append([]byte(nil), in[sp.lo:sp.hi]...), want, opts...)
+				gerr = json.UnmarshalDecode(dec, got, opts...)
 				off = dec.InputOffset()
 			}); pp != nil {
 				c.Panic("UnmarshalDecode", in, pp, map[string]any{"reader": p.String(), "value_index": i})
 				return
 			}
 			wcl, gcl := c05JErr(werr, 0), c05JErr(gerr, sp.lo)
+			if recheck(fmt.Sprintf("after UnmarshalDecode of value %d", i)) {
+				break
+			}
+			if gerr != nil {
+				c.Hit("unmarshaldecode:error-mid-stream")
+				errs = append(errs, c05ErrSnap{gerr, c05JErr(gerr, 0), fmt.Sprintf("UnmarshalDecode of value %d", i)})
+			}
 			// pointers of a stream are relative to the top-level value as well: compare as they are
 			field := ""
 			switch {
@@ -1736,15 +1965,43 @@ func (e *c05Env) decodeStreamCase(in []byte, r *rand.Rand) {
 			case gerr == nil && off != sp.hi:
 				field = "input-offset"
 			}
+			if field == "error" && optSel&4 != 0 && strings.HasPrefix(wcl, "V1SYN@") && strings.HasPrefix(gcl, "V1SYN@") {
+				var o2 []json.Options
+				for _, o := range c05Opts(optSel &^ 4) {
+					o2 = append(o2, o)
+				}
+				// replay the stream up to this value without the flag
+				var we2, ge2 error
+				guard(func() {
+					d2 := jsontext.NewDecoder(c05NewFeed(in, p).rd, c05Opts(optSel&3)...)
+					for k := 0; k <= i; k++ {
+						ge2 = json.UnmarshalDecode(d2, mk(), o2...)
+					}
+					we2 = json.Unmarshal(append([]byte(nil), in[sp.lo:sp.hi]...), mk(), o2...)
+				})
+				if a, b := c05JErr(we2, 0), c05JErr(ge2, sp.lo); a == b && strings.HasPrefix(a, "SYN:text:") {
+					field = "legacy-offset-depends-on-buffered-invalid-text"
+				}
+			}
 			if field != "" {
 				c.Violate("stream-mismatch", "UnmarshalDecode:"+field, in, map[string]any{"input": trunc(string(in), 200), "reader": p.String(), "value_index": i, "value": trunc(string(in[sp.lo:sp.hi]), 100),
-					"Unmarshal": wcl, "UnmarshalDecode": gcl, "InputOffset": off, "expected_offset": sp.hi, "target": fmt.Sprintf("%T", want)})
+					"Unmarshal": wcl, "UnmarshalDecode": gcl, "InputOffset": off, "expected_offset": sp.hi, "target": fmt.Sprintf("%T", want), "options": optSel})
 				break
 			}
-			if gerr != nil {
-				break // after a semantic error the decoder position is unspecified
+			if gerr != nil && off != sp.hi {
+				// the decoder stopped inside the value: its position is unspecified, but a caller may still use it -
+				// whatever it does must not change the error it already holds
+				guard(func() {
+					dec.PeekKind()
+					dec.ReadToken()
+					dec.SkipValue()
+					dec.ReadValue()
+				})
+				recheck("after further calls on the decoder")
+				break
 			}
 		}
+		recheck("at the end of the stream")
 	}
 }
 
@@ -1754,11 +2011,26 @@ func (e *c05Env) phaseUnmarshal() {
 	small := c05SmallInputs(true)
 	c05Parallel(c, n+len(small), func(i int) {
 		r := c05Rng(c, 6, uint64(i))
+		g := c05Gen{r}
 		var in []byte
-		if i < len(small) {
+		targets := append([]func() any(nil), c05BaseTargets...)
+		optSel := 0
+		if r.IntN(5) == 0 {
+			optSel = 1 + r.IntN(3)
+		}
+		switch {
+		case i < len(small):
 			in = small[i]
-		} else {
-			g := c05Gen{r}
+		case i%3 == 0:
+			// typed targets with semantic errors mid-stream, half of them with non-fatal (legacy) error reporting
+			in = g.typedDoc()
+			targets = append([]func() any{c05BaseTargets[0]}, c05TypedTargets...)
+			optSel = r.IntN(2) * 4
+			if r.IntN(6) == 0 {
+				optSel |= 1 + r.IntN(3)
+			}
+			c.Hit("unmarshal:input:typed")
+		default:
 			in, _ = g.doc()
 			if r.IntN(4) == 0 {
 				// make it look like the struct so that typed decoding does something
@@ -1768,14 +2040,15 @@ func (e *c05Env) phaseUnmarshal() {
 					in = g.mutate(in)
 				}
 			}
+			targets = append(targets, c05TypedTargets[r.IntN(len(c05TypedTargets))])
+			if r.IntN(4) == 0 {
+				optSel |= 4
+			}
 		}
-		optSel := 0
-		if r.IntN(5) == 0 {
-			optSel = 1 + r.IntN(3)
-		}
-		c.Case("F|"+string(in), len(in) >= 2)
-		e.unmarshalCase(in, r, optSel)
-		e.decodeStreamCase(in, r)
+		c.Case(fmt.Sprintf("F|%d|", optSel)+string(in), len(in) >= 2)
+		e.unmarshalCase(in, r, optSel, targets)
+		e.decodeStreamCase(in, r, optSel, targets[r.IntN(len(targets))])
+		e.decodeStreamCase(in, r, optSel, targets[len(targets)-1])
 	})
 	// sized inputs through UnmarshalRead
 	var jobs [][]byte
@@ -1791,13 +2064,24 @@ func (e *c05Env) phaseUnmarshal() {
 		r := c05Rng(c, 7, uint64(i))
 		in := jobs[i]
 		c.Case(fmt.Sprintf("F2|%d", i), true)
-		e.unmarshalCase(in, r, 0)
+		e.unmarshalCase(in, r, 0, c05BaseTargets)
 		in2 := append(append([]byte(`{"a":1,"c":[`), in...), []byte(`],"b":"x","e":{"f":`)...)
 		in2 = append(append(in2, in...), []byte(`},"g":1.5`)...)
 		if i%2 == 0 {
 			in2 = append(in2, '}')
 		}
-		e.unmarshalCase(in2, r, 0)
+		e.unmarshalCase(in2, r, (i%2)*4, c05BaseTargets)
+		// a long array whose elements fail for int8 one after the other, across every buffer size
+		var big []byte
+		big = append(big, '[')
+		for k := 0; len(big) < len(in); k++ {
+			if k > 0 {
+				big = append(big, ',')
+			}
+			big = append(big, []string{"1", "300", "-7", `"x"`, "  12", "70000", "1e9"}[(k+i)%7]...)
+		}
+		big = append(big, ']')
+		e.unmarshalCase(big, r, (i%2)*4, c05TypedTargets[:3])
 	})
 }
 
@@ -2120,10 +2404,13 @@ func (e *c05Env) replay(path string) {
 	if rp == nil || strings.HasPrefix(f.Violation.Op, "Unmarshal") || strings.HasPrefix(f.Violation.Op, "Value.") {
 		// json-level cases carry no plan: re-run the input through every plan
 		r := c05Rng(c, 9, 0)
-		for optSel := 0; optSel < 4; optSel++ {
-			e.unmarshalCase(in, r, optSel)
+		all := append(append([]func() any(nil), c05BaseTargets...), c05TypedTargets...)
+		for optSel := 0; optSel < 8; optSel++ {
+			e.unmarshalCase(in, r, optSel, all)
+			for _, mk := range all {
+				e.decodeStreamCase(in, r, optSel, mk)
+			}
 		}
-		e.decodeStreamCase(in, r)
 		return
 	}
 	plan := c05Plan{kind: str("kind"), name: str("name"), fixed: num("fixed"), emptyMode: num("empty_mode"), faultAt: num("fault_at")}
